@@ -25,7 +25,11 @@ func (m *Manager) AggregationLoop(ctx context.Context, errCh chan<- error) {
 
 	if delay > 0 {
 		m.logger.Info("waiting to produce block", "delay", delay)
-		time.Sleep(delay)
+		select {
+		case <-ctx.Done():
+			return
+		case <-time.After(delay):
+		}
 	}
 
 	// blockTimer is used to signal when to build a block based on the
